@@ -112,4 +112,7 @@ pub mod verif {
     pub use crate::jobserver::Client as JobClient;
     pub use crate::mock_command::*;
     pub use crate::protocol::*;
+    // H8: the listener abstraction of `server::SccacheServer::with_listener`, so that the harness can hand the real
+    // server an in-memory listener
+    pub use crate::net::{Acceptor, SocketAddr as NetSocketAddr};
 }
